@@ -208,25 +208,40 @@ func (w *world) tryBuild(defs []*Def) []*built {
 			defer func() { <-sem }()
 			sub := filepath.Join(dir, fmt.Sprintf("d%d", k))
 			os.MkdirAll(sub, 0o755)
-			in := filepath.Join(sub, fmt.Sprintf("defs%d.go", k))
-			os.WriteFile(in, []byte(d.Source("main")), 0o644)
-			gen := exec.Command(w.genumBin, genArgs(d, in)...)
-			gen.Dir = sub
-			gen.Env = append(append([]string{}, w.env...), "PWD="+sub)
-			out, err := gen.CombinedOutput()
-			if err != nil {
-				res[k].status = "err:generate"
-				res[k].detail = string(out)
+			// one generator invocation per file; a definition with pre-generated types is two files
+			// in one directory: the earlier invocation's output exists when the later one runs
+			inner, outer := d.split()
+			var files []string
+			runGen := func(part *Def, base string) bool {
+				in := filepath.Join(sub, base+".go")
+				os.WriteFile(in, []byte(part.Source("main")), 0o644)
+				gen := exec.Command(w.genumBin, genArgs(part, in)...)
+				gen.Dir = sub
+				gen.Env = append(append([]string{}, w.env...), "PWD="+sub)
+				out, err := gen.CombinedOutput()
+				if err != nil {
+					res[k].status = "err:generate"
+					res[k].detail = string(out)
+					return false
+				}
+				genFile := filepath.Join(sub, base+".genum.go")
+				if _, err := os.Stat(genFile); err != nil {
+					res[k].status = "err:generate"
+					res[k].detail = "no output file"
+					return false
+				}
+				files = append(files, in, genFile)
+				return true
+			}
+			if inner != nil && !runGen(inner, fmt.Sprintf("defs%dpre", k)) {
 				return
 			}
-			genFile := filepath.Join(sub, fmt.Sprintf("defs%d.genum.go", k))
-			if _, err := os.Stat(genFile); err != nil {
-				res[k].status = "err:generate"
-				res[k].detail = "no output file"
+			if len(outer.Types) > 0 && !runGen(outer, fmt.Sprintf("defs%d", k)) {
 				return
 			}
-			os.Rename(in, filepath.Join(dir, filepath.Base(in)))
-			os.Rename(genFile, filepath.Join(dir, filepath.Base(genFile)))
+			for _, f := range files {
+				os.Rename(f, filepath.Join(dir, filepath.Base(f)))
+			}
 		}(k, d)
 	}
 	wg.Wait()
@@ -401,7 +416,7 @@ func probeSource(defs []*Def) string {
 				case c.Ty == "bool":
 					get = fmt.Sprintf("fmtB(v.(%s).%s())", t.Name, c.Name)
 					mk = "b, ok := scB(sc); return b, ok"
-				case c.Ty == "uint8" || c.Ty == "uint16" || c.Ty == "uint64" || strings.HasPrefix(c.Ty, "Un"):
+				case c.Ty == "uint8" || c.Ty == "uint16" || c.Ty == "uint64" || strings.HasPrefix(c.Ty, "Un") || isUnsignedKind(d.kindOf(c.Ty)):
 					get = fmt.Sprintf("\"i:\" + strconv.FormatUint(uint64(v.(%s).%s()), 10)", t.Name, c.Name)
 					mk = fmt.Sprintf("n, ok := scU(sc); x := %s(n); return x, ok && uint64(x) == n", gt)
 				default: // signed integer kinds, rune
@@ -842,3 +857,8 @@ func main() {
 }
 
 `
+
+func isUnsignedKind(k string) bool {
+	_, signed, _, ok := kindInfo(k)
+	return ok && !signed
+}
